@@ -149,6 +149,33 @@ CHECKS_K1 = {
                 "every operator object subscribed twice) - bounded.",
         "technique": "function/closure contracts (subscribe + one arbitrary tick + continuation) and wrapper-to-engine obligations, symbolic execution of the real code, SMT",
     },
+    "C22": {
+        "text": "Function contracts with loop invariants on the real ReplaySubject, the retained queue viewed as a SEQUENCE of (time, "
+                "value) records with non-decreasing times, buffer_size and window arbitrary (None = no limit). _trim(now): both loops "
+                "are cut at their invariants (one arbitrary iteration from an arbitrary queue): the size loop removes exactly the head "
+                "and only while more than buffer_size records are retained, stopping exactly when at most buffer_size are left; the "
+                "age loop removes exactly the head and only while it is older than the window at `now`, stopping exactly when the "
+                "queue is empty or its head is young enough - so after _trim the queue is the longest suffix with at most "
+                "buffer_size records whose head is within the window: 'the last buffer_size values whose age is within the window'. "
+                "_on_next_core: under the lock it snapshots the subscribers, reads the clock once, appends exactly (now, value) at the "
+                "tail and trims with that time; outside the lock it gives the value to every subscriber of the snapshot in order and "
+                "activates each. _subscribe_core, under the lock and in this order: refuses when disposed; trims with the current "
+                "time; registers a new ScheduledObserver(subject's scheduler, observer); replays (the loop is cut: one arbitrary "
+                "iteration gives exactly that record's value to exactly the new observer and nothing else); then the stored error, "
+                "else completion if stopped; after the lock it activates the observer and returns a disposable that unregisters "
+                "it. Registration + replay and (append + snapshot) are critical sections of the same lock, so a value is either "
+                "replayed or forwarded to a given subscriber - never both, never neither: nothing duplicated, lost or reordered. "
+                "The terminal cores snapshot and clear the subscribers (and keep the error), trim, and give the terminal to every "
+                "subscriber they had. RemovableDisposable / dispose unregister and clear.",
+        "note": "Trusted: rxvc; z3; A-time (integer ticks, the scheduler clock is an opaque monotone reading bounded by 10^15; "
+                "timedelta.max is modelled as 10^18); QueueItem (a NamedTuple) is modelled as the pair (interval, value); deque.popleft "
+                "/ append are sequence operations; what a ScheduledObserver does with what it is given (exactly-once, in-order "
+                "delivery on the scheduler) is C32, used here as a contract; the Lock contract. Sequential histories (the property "
+                "quantifies histories); the 'either replayed or forwarded' argument is the lock-discipline argument spelled out above, "
+                "its per-method premises are what is proved. Replay and thorough cross-check: replayrun.py (timed histories on a "
+                "VirtualTimeScheduler against a reference model) - bounded.",
+        "technique": "function contracts with loop invariants (one arbitrary iteration) over a sequence view of the queue, symbolic execution of the real code, SMT",
+    },
     "C24": {
         "text": "Function / closure contracts on the real multicasting code. ConnectableObservable.connect, from either state: not "
                 "connected - subscribes the SUBJECT to the source exactly once, marks itself connected and returns a disposable holding "
